@@ -27,13 +27,21 @@ CONSTANTS
     N,            \* listen requests
     Sides,        \* subset of {"remote", "local"}
     Fams,         \* subset of {"tcp", "unix"}
+    Answers,      \* what the server application answers to a listen request:
+                  \*   subset of {"false", "true", "callable", "applistener",
+                  \*   "otherconn"}: refuse / let asyncssh listen / an accept
+                  \*   callable (asyncssh listens) / an SSHListener object of its
+                  \*   own / one that lives on another connection
+    UntrackedAppListener, \* sensitivity: a listener object supplied by the
+                  \*   application is not recorded in _local_listeners
     LateStore     \* sensitivity / model of the code before e495612 and of the
                   \*   client side as it is: a listener that becomes ready after
                   \*   the connection ended is stored (and stays open) instead
                   \*   of being closed; set of sides for which this happens
 
 Reqs == 1..N
-NoReq == [side |-> "-", fam |-> "-"]
+NoReq == [side |-> "-", fam |-> "-", ans |-> "-"]
+AppAns == {"applistener", "otherconn"}
 
 VARIABLES
     conn,     \* "up" | "dead"
@@ -42,14 +50,15 @@ VARIABLES
     st,       \* request -> "none" | "queued" | "deciding" | "setup" | "open" | "refused"
               \*            | "cancelled" | "closed" | "late"
     socks,    \* requests whose listening socket is open
+    closes,   \* request -> number of close() calls on the listener that served it
     lbl
 
-vars == <<conn, how, cfg, st, socks, lbl>>
+vars == <<conn, how, cfg, st, socks, closes, lbl>>
 
 Init ==
     /\ conn = "up" /\ how = "-"
     /\ cfg = [k \in Reqs |-> NoReq] /\ st = [k \in Reqs |-> "none"]
-    /\ socks = {} /\ lbl = <<"init">>
+    /\ socks = {} /\ closes = [k \in Reqs |-> 0] /\ lbl = <<"init">>
 
 \* the server handles global requests one at a time: the next one is looked
 \* at when the previous one has been answered (connection.py 2220-2246), and
@@ -68,15 +77,26 @@ Request(k, c) ==
     /\ st' = [st EXCEPT ![k] = IF c.side = "local" THEN "setup"
                                ELSE IF RemoteBusy(st, cfg) THEN "queued" ELSE "deciding"]
     /\ lbl' = <<"request", k, c>>
-    /\ UNCHANGED <<conn, how, socks>>
+    /\ UNCHANGED <<conn, how, socks, closes>>
 
 \* the server application's awaitable completes
+Untracked(k) == UntrackedAppListener /\ cfg[k].ans \in AppAns
+
 Decide(k, ok) ==
     /\ st[k] = "deciding"
-    /\ st' = IF ok THEN [st EXCEPT ![k] = "setup"]
-             ELSE Advance([st EXCEPT ![k] = "refused"])
+    /\ ok = (cfg[k].ans # "false")
+    /\ IF ~ok
+       THEN st' = Advance([st EXCEPT ![k] = "refused"]) /\ UNCHANGED <<socks, closes>>
+       ELSE IF cfg[k].ans \notin AppAns
+       THEN st' = [st EXCEPT ![k] = "setup"] /\ UNCHANGED <<socks, closes>>
+       \* the application hands over a listener that is already listening
+       ELSE IF conn = "up"
+       THEN st' = Advance([st EXCEPT ![k] = "open"]) /\ socks' = socks \cup {k}
+            /\ UNCHANGED closes
+       ELSE st' = [st EXCEPT ![k] = "closed"] /\ UNCHANGED socks
+            /\ closes' = [closes EXCEPT ![k] = @ + 1]
     /\ lbl' = <<"decide", k, ok>>
-    /\ UNCHANGED <<conn, how, cfg, socks>>
+    /\ UNCHANGED <<conn, how, cfg>>
 
 \* name resolution / socket set-up completes: the listening socket exists
 SetupDone(k) ==
@@ -86,6 +106,8 @@ SetupDone(k) ==
        ELSE IF cfg[k].side \in LateStore
        THEN st' = [st EXCEPT ![k] = "late"] /\ socks' = socks \cup {k}
        ELSE st' = [st EXCEPT ![k] = "closed"] /\ UNCHANGED socks
+    /\ closes' = IF conn # "up" /\ cfg[k].side \notin LateStore
+                 THEN [closes EXCEPT ![k] = @ + 1] ELSE closes
     /\ lbl' = <<"setup", k>>
     /\ UNCHANGED <<conn, how, cfg>>
 
@@ -95,19 +117,35 @@ SetupDone(k) ==
 Cancel(k) ==
     /\ conn = "up" /\ st[k] = "open"
     /\ (cfg[k].side = "remote" => ~RemoteBusy(st, cfg))
-    /\ st' = [st EXCEPT ![k] = "cancelled"] /\ socks' = socks \ {k}
+    /\ IF Untracked(k)
+       THEN \* cancel-tcpip-forward does not find it: ProtocolError, the whole
+            \* connection goes down; _cleanup closes what IS recorded
+            /\ conn' = "dead" /\ how' = "perr"
+            /\ st' = [j \in Reqs |-> IF st[j] = "open" /\ ~Untracked(j)
+                                     THEN "closed" ELSE st[j]]
+            /\ socks' = {j \in socks : st[j] # "open" \/ Untracked(j)}
+            /\ closes' = [j \in Reqs |-> IF st[j] = "open" /\ ~Untracked(j)
+                                         THEN closes[j] + 1 ELSE closes[j]]
+       ELSE /\ st' = [st EXCEPT ![k] = "cancelled"] /\ socks' = socks \ {k}
+            /\ closes' = [closes EXCEPT ![k] = @ + 1]
+            /\ UNCHANGED <<conn, how>>
     /\ lbl' = <<"cancel", k>>
-    /\ UNCHANGED <<conn, how, cfg>>
+    /\ UNCHANGED cfg
 
 ConnEnd(h) ==
     /\ conn = "up"
     /\ conn' = "dead" /\ how' = h
-    /\ st' = [k \in Reqs |-> IF st[k] = "open" THEN "closed" ELSE st[k]]
-    /\ socks' = {k \in socks : st[k] # "open"}
+    /\ st' = [k \in Reqs |-> IF st[k] = "open" /\ ~Untracked(k) THEN "closed" ELSE st[k]]
+    /\ socks' = {k \in socks : st[k] # "open" \/ Untracked(k)}
+    /\ closes' = [k \in Reqs |-> IF st[k] = "open" /\ ~Untracked(k)
+                                 THEN closes[k] + 1 ELSE closes[k]]
     /\ lbl' = <<"end", h>>
     /\ UNCHANGED cfg
 
-Cfgs == [side : Sides, fam : Fams]
+\* (unix_server_requested has no accept-handler answer)
+Cfgs == {c \in [side : Sides \cap {"remote"}, fam : Fams, ans : Answers] :
+            ~(c.fam = "unix" /\ c.ans = "callable")}
+          \cup [side : Sides \cap {"local"}, fam : Fams, ans : {"-"}]
 Next ==
     \/ \E k \in Reqs, c \in Cfgs : Request(k, c)
     \/ \E k \in Reqs, ok \in BOOLEAN : Decide(k, ok)
@@ -119,6 +157,15 @@ Spec == Init /\ [][Next]_vars
 -----------------------------------------------------------------------------
 Pending == \E k \in Reqs : st[k] \in {"deciding", "setup"}
 ListenersReleased == (conn = "dead" /\ ~Pending) => socks = {}
+\* close() is called exactly once on whatever listener served a request, when
+\* the forward is cancelled or the connection ends - never twice, never on a
+\* listener that is still serving
+ClosedOnce ==
+    /\ \A k \in Reqs : closes[k] <= 1
+    /\ \A k \in Reqs : st[k] \in {"cancelled", "closed"} => closes[k] = 1
+    /\ \A k \in Reqs : st[k] = "open" /\ conn = "up" => closes[k] = 0
+\* a cancel is answered and leaves the connection up
+CancelKeepsConnection == how # "perr"
 \* while the connection is up exactly the open listeners listen
 SocketsExact == conn = "up" => socks = {k \in Reqs : st[k] = "open"}
 NoLateListener == \A k \in Reqs : st[k] # "late"
